@@ -395,7 +395,8 @@ def finish(prop, tier, seed, level, coverage, violations, t0, assumptions, notes
     }
     if notes:
         ev["notes"] = notes
-    evdir = os.path.join(VERIF, "evidence") if REPO == "/repo" else od
+    # (ids that are not listed properties -- spec growth beyond them, X01.. -- keep their evidence apart)
+    evdir = os.path.join(VERIF, "evidence" if re.match(r"C\d+$", prop) else "evidence-extras") if REPO == "/repo" else od
     os.makedirs(evdir, exist_ok=True)
     with open(os.path.join(evdir, prop + ".json"), "w") as f:
         json.dump(ev, f, indent=1)
